@@ -1099,6 +1099,7 @@ func main() {
 		w(".%s", st)
 	}
 	w("]\n")
+	w("def enterFuncDrops : Bool := %v\n", enterFuncShape(cmpF))
 	w("def enterFuncCases : List String := [")
 	for i, e := range enter {
 		if i > 0 {
